@@ -74,4 +74,24 @@ theorem step_inert (a : ArraySized) (op : Spec.SSeq.Op Elem) (m : Mem) (h : a.In
   | reduce fn r0 => simp [step] at hs
   | sort sortFn => simp [step] at hs
 
+/-! ### the per-call bundle under the conventional names -/
+theorem step_inv (a : ArraySized) (op : Spec.SSeq.Op Elem) (m : Mem) (h : a.Inv) (hg : a.GrowOk)
+    (hw : OpWF a.dataLen op) : (a.step op m).2.1.Inv := (step_refines a op m h hg hw).2.2.1
+
+theorem step_nofault (a : ArraySized) (op : Spec.SSeq.Op Elem) (m : Mem) (h : a.Inv) (hg : a.GrowOk)
+    (hw : OpWF a.dataLen op) : (a.step op m).2.2.fault = m.fault := (step_refines a op m h hg hw).2.2.2.2.2.1.2
+
+/-- the array owns its two blocks before and after every call of the core API -/
+theorem step_ledger (a : ArraySized) (op : Spec.SSeq.Op Elem) (m : Mem) (h : a.Inv) (hg : a.GrowOk)
+    (hw : OpWF a.dataLen op) : (a.step op m).2.2.live = m.live := (step_refines a op m h hg hw).2.2.2.2.2.1.1
+
+/-- a refused allocation: status `CC_ERR_ALLOC`, physical state unchanged, ledger unchanged -/
+theorem step_atomic (a : ArraySized) (op : Spec.SSeq.Op Elem) (m : Mem) (h : a.Inv) (hg : a.GrowOk)
+    (hw : OpWF a.dataLen op) (hst : (a.step op m).1.st = some .errAlloc) :
+    (a.step op m).2.1 = a ∧ (a.step op m).2.2.live = m.live ∧ (a.step op m).2.2.fault = m.fault ∧
+    m.alloc.1 = false := by
+  obtain ⟨_, _, _, _, _, h6, h7, h8, _⟩ := step_refines a op m h hg hw
+  have hr : a.refusal op m = some .errAlloc := by unfold refusal; rw [hst]
+  exact ⟨h7 (by rw [hr]; simp), h6.1, h6.2, h8 hr⟩
+
 end CC.ArraySized
